@@ -3,6 +3,7 @@
 #pragma once
 #include "sim.h"
 #include "json.h"
+#include <set>
 extern "C" {
 #include <yara.h>
 }
@@ -67,3 +68,25 @@ struct Args { std::map<std::string, std::string> kv; std::vector<std::string> po
   std::string get(const std::string& k, const std::string& def = "") const { auto it = kv.find(k); return it == kv.end() ? def : it->second; }
   int64_t num(const std::string& k, int64_t def) const { auto it = kv.find(k); return it == kv.end() ? def : strtoll(it->second.c_str(), 0, 10); }
   bool has(const std::string& k) const { return kv.count(k) > 0; } };
+
+// ------------------------------------------------------- block iterator -----
+// Position-based iterator over a partition of a buffer, with a not-ready plan.
+// Resume contract (DESIGN.md §5.C13): first() rewinds; a call that answered
+// not-ready leaves its block pending; the next next() delivers the pending block.
+struct BlockIter {
+  const uint8_t* data = nullptr; size_t size = 0;
+  std::vector<std::pair<size_t, size_t>> blocks;     // (offset, length)
+  std::vector<YR_MEMORY_BLOCK> mb;
+  struct Ctx { BlockIter* it; int idx; };
+  std::vector<Ctx> ctx;
+  int pos = -1; int pending = -1;
+  int64_t calls = 0;                   // first()/next() calls so far (0-based index of the next call)
+  std::set<int64_t> not_ready_at;      // call indices answering ERROR_BLOCK_NOT_READY
+  std::set<int> fetch_null;            // blocks whose data cannot be fetched
+  bool report_size = true;
+  int64_t not_ready_fired = 0, fetches = 0, firsts = 0, nexts = 0;
+  std::function<void(BlockIter&, int64_t, bool)> on_call;   // (iter, call index, is_first)
+  YR_MEMORY_BLOCK_ITERATOR it;
+  void init(const void* d, size_t n, const std::vector<std::pair<size_t, size_t>>& parts);
+  void init_single(const void* d, size_t n) { init(d, n, {{0, n}}); }
+};
